@@ -430,11 +430,13 @@ pub fn configs(tier: Tier) -> Vec<Cfg> {
     let levels = [Level::SlightlyPositive, Level::SlightlyNegative, Level::Negative, Level::DeeplyNegative, Level::NegativeOnlyAfterBias];
     let lqs = [Liquidator::LargeDepositInDebtBank, Liquidator::SmallDepositInDebtBank, Liquidator::OnlyOtherCollateral, Liquidator::DebtInAssetBank, Liquidator::ThinCollateral];
     let mut v = vec![];
+    let weights: &[(f64, f64)] = if tier == Tier::Quick { &[(0.9, 1.1), (0.6, 1.0), (1.0, 1.4), (1.0, 1.0)] } else { &[(0.9, 1.1), (0.6, 1.0), (1.0, 1.4), (1.0, 1.0), (0.05, 1.0), (0.999, 1.001), (0.5, 2.0), (0.95, 1.05)] };
+    let confs: &[u64] = if tier == Tier::Quick { &[0, 500] } else { &[0, 1, 100, 500, 2_000, 4_999] };
     for &pair in pairs {
         for &level in &levels {
             for &liquidator in &lqs {
-                for &(aw, lw) in &[(0.9f64, 1.1f64), (0.6, 1.0), (1.0, 1.4), (1.0, 1.0)] {
-                    for &conf in &[0u64, 500] {
+                for &(aw, lw) in weights {
+                    for &conf in confs {
                         v.push(Cfg { pair, level, liquidator, asset_w_maint: aw, liab_w_maint: lw, asset_conf_pp: conf, variant: Variant::Plain });
                     }
                 }
@@ -444,8 +446,10 @@ pub fn configs(tier: Tier) -> Vec<Cfg> {
     // departures from the flat world on a sub-product
     for variant in [Variant::EmaBelowSpot, Variant::EmaAboveSpot, Variant::AssetShareBelowOne, Variant::SharesAboveOne] {
         for &pair in pairs {
-            for &level in &[Level::SlightlyNegative, Level::Negative, Level::DeeplyNegative] {
-                for &liquidator in &[Liquidator::LargeDepositInDebtBank, Liquidator::OnlyOtherCollateral] {
+            let vlevels: &[Level] = if tier == Tier::Quick { &[Level::SlightlyNegative, Level::Negative, Level::DeeplyNegative] } else { &levels };
+            let vlqs: &[Liquidator] = if tier == Tier::Quick { &[Liquidator::LargeDepositInDebtBank, Liquidator::OnlyOtherCollateral] } else { &lqs };
+            for &level in vlevels {
+                for &liquidator in vlqs {
                     for &(aw, lw) in &[(0.9f64, 1.1f64), (1.0, 1.0)] {
                         for &conf in &[0u64, 500] {
                             v.push(Cfg { pair, level, liquidator, asset_w_maint: aw, liab_w_maint: lw, asset_conf_pp: conf, variant });
